@@ -48,7 +48,8 @@ EXPECTED_PROBES = ["fault_before_first_attr", "fault_in_write_skip_metadata",
                    "target_absent_after", "target_unreadable_after",
                    "write_once_refused", "stragglers_at_raise", "recovery_save_ok",
                    "hardlinked_foreign_file", "hardlinked_snapshot_of_saved_object",
-                   "target_is_symlink_to_object", "fault_is_keyboard_interrupt"]
+                   "target_is_symlink_to_object", "fault_is_keyboard_interrupt",
+                   "dotdot_in_target_sub", "dotdot_in_target_lnk"]
 # thorough tier only: "sweep_exhaustive" / "sweep_strided" count how many workloads were swept over
 # EVERY fault position and how many (more than 700 store positions) over a stride
 
@@ -93,6 +94,12 @@ def gen(rng: Rng, tier, i):
         # the target alone in pre-existing, otherwise EMPTY parent directories (they are not the
         # save's to remove)
         tgt = dict(tgt, name=rng.pick(["solo/", "a/b/c/"]) + tgt["name"])
+    dd = rng.fork("dotdot")
+    if not tgt["name"].endswith("/") and "/" not in tgt["name"] and dd.chance(0.1):
+        # '..' in the spelling of the target: behind a real directory, or behind a SYMLINKED one
+        # (then the physical target is not what a lexical collapse of the path names); a complete
+        # decoy object sits at the lexically collapsed path
+        tgt = dict(tgt, name=dd.pick(["sub/../", "lnk/../"]) + tgt["name"])
     # "symlink_obj": the target is a symbolic link to an earlier COMPLETE object elsewhere (results
     # folder on scratch storage).  The library may refuse such a save or replace the link; what it
     # must never do is leave a partial object loadable through the target path.
@@ -147,6 +154,18 @@ def _build_version(plan, v, with_unpicklable=False):
 
 
 def _setup_pre(E, plan, tgt_path):
+    name = plan["target"]["name"]
+    if name.startswith("lnk/../"):
+        os.makedirs(os.path.join(E.work, "elsewhere2", "deep"))
+        os.symlink(os.path.join(E.work, "elsewhere2", "deep"), os.path.join(E.work, "lnk"))
+        # decoy: a complete object at the path a lexical normalisation of the target would name
+        decoy = os.path.join(E.work, _final_path(plan)[len("lnk/../"):])
+        obj = _build_version(plan, len(plan["versions"]) - 1)
+        _, exc, _ = E.save(obj, decoy, mode="w", store=_store_kind(plan))
+        if exc is not None:
+            raise HarnessError(f"could not create the decoy object: {exc!r}")
+    elif name.startswith("sub/../"):
+        os.makedirs(os.path.join(E.work, "sub"))
     os.makedirs(os.path.dirname(tgt_path), exist_ok=True)   # pre-existing (maybe empty) parents
     # siblings that no save may touch
     os.makedirs(os.path.join(E.work, "sib_dir", "sub"))
@@ -209,7 +228,9 @@ def _others_hash(E, tgt_path):
     """Map of everything in the work directory EXCEPT the target subtree: every directory (also
     empty ones, also the target's own parents) and every file with a hash of its bytes."""
     out = {}
-    tgt = os.path.abspath(tgt_path)
+    # the PHYSICAL location of the target's directory entry ('..' behind a symlinked parent resolves
+    # through the link), the entry itself not followed
+    tgt = os.path.join(os.path.realpath(os.path.dirname(tgt_path)), os.path.basename(tgt_path))
     # what a symlinked target points to belongs to the target (whether a save may write through the
     # link is not settled by the property; the destination is neither required to change nor to stay)
     real = os.path.join(E.work, "elsewhere", "real_obj")
@@ -269,6 +290,8 @@ def _execute(plan, focus_fault, rec_counts=None, refs=None, keep_log=True):
         _setup_pre(E, plan, tgt_final)
         if plan.get("hardlinks") and plan["pre"] == "file":
             bump(out["probes"], "hardlinked_foreign_file")
+        if "/../" in plan["target"]["name"]:
+            bump(out["probes"], "dotdot_in_target_" + plan["target"]["name"].split("/")[0])
         last_ok = None          # version id of the last successful save to the target
         foreign = plan["pre"] in ("file", "dir")
         REFS = out["refs"] if recording else refs
@@ -512,6 +535,9 @@ def run(plan):
     rec = _execute(plan, None, keep_log=True)
     if rec.get("unloadable"):
         bump(res["obs"], "recording_not_roundtrippable")
+        # what the fault-free history already violated (paths outside the target, staging, write-once)
+        # is reported all the same; only the fault sweep needs a loadable recording
+        res["violations"] += rec["viol"]
         res["digest"] = plan_digest(plan)
         res["obs"]["_"] = 0
         res["obs"].pop("_")
